@@ -7,7 +7,9 @@ import json, os, re, shutil, subprocess, sys, time
 
 SRC = os.environ.get("SEEDED_SRC", "/tmp/seedout")
 ROOT = "/verif"
-EXTRA = {"C02-B": ["C16"], "C05-B": ["C16"], "C07-B": ["C17"], "C13-B": ["C17"], "C03-B": ["C10"], "C10-A": ["C03"], "C16-B": ["C05"], "C08-B": ["C03", "C04"], "C01-B": ["C06"], "C06-B": ["C01"]}
+EXTRA = {"C02-C": ["C16", "C10"], "C03-C": ["C16", "C10"], "C05-D": ["C16", "C10"], "C10-C": ["C16"], "C11-D": ["C16", "C10"], "C06-C": ["C17"], "C13-C": ["C17"], "C14-C": ["C17"],
+         "C20-C": ["C17"], "C12-D": ["C17"], "C07-D": ["C17"], "C01-D": ["C17", "C07"], "C10-D": ["C17"], "C08-C": ["C18"], "C18-D": ["C08"], "C16-C": ["C17"], "C19-C": ["C02"], "C09-D": ["C03"], "C05-C": ["C11"],
+         "C02-B": ["C16"], "C05-B": ["C16"], "C07-B": ["C17"], "C13-B": ["C17"], "C03-B": ["C10"], "C10-A": ["C03"], "C16-B": ["C05"], "C08-B": ["C03", "C04"], "C01-B": ["C06"], "C06-B": ["C01"]}
 
 def sh(cmd, **kw):
     return subprocess.run(cmd, shell=True, capture_output=True, text=True, **kw)
@@ -18,11 +20,12 @@ def main():
     titles = {p["id"]: p["title"] for p in props}
     items = []
     for d in sorted(os.listdir(SRC)):
-        m = re.fullmatch(r"(C\d\d)a", d)
+        m = re.fullmatch(r"(C\d\d)([ab])", d)
         if not m:
             continue
         for x in "AB":
-            sid = f"{m.group(1)}-{x}"
+            # second-round changes (directories CNNb) are filed as C and D
+            sid = f"{m.group(1)}-{x if m.group(2) == 'a' else {'A': 'C', 'B': 'D'}[x]}"
             if todo and sid not in todo:
                 continue
             patch = f"{SRC}/{d}/patch{x}.ported.diff"
